@@ -57,6 +57,13 @@ Section Alist.
   Definition permb (l e : list (K * bytes)) : bool :=
     (length l =? length e)%nat && nodupk (keys l) && nodupk (keys e)
     && forallb (fun kv => obeqb (lookup (fst kv) e) (Some (snd kv))) l.
+  (* how a Go map [m] comes back from a decoder: absent (nil) when it was empty, otherwise an
+     equal finite map *)
+  Definition map_back (o : option (list (K * bytes))) (m : list (K * bytes)) : Prop :=
+    match m with
+    | [] => o = None
+    | _ :: _ => exists l, o = Some l /\ fm_eq l m
+    end.
 End Alist.
 
 Definition slookup := lookup beqb.
@@ -102,6 +109,13 @@ Definition interp_step (m : list (N * bytes) * list (bytes * bytes)) (s : sec) :
   end.
 Definition interp_from m (secs : list sec) := fold_left interp_step secs m.
 Definition interp (secs : list sec) := interp_from ([], []) secs.
+
+(* a map exists at all (Go: is not nil) iff some section of its kind occurs, even an empty one *)
+Definition is_intsec (s : sec) : bool := match s with IntKV _ => true | _ => false end.
+Definition is_strsec (s : sec) : bool := match s with KV _ | ACL _ => true | _ => false end.
+Definition ointerp (secs : list sec) : option (list (N * bytes)) * option (list (bytes * bytes)) :=
+  (if existsb is_intsec secs then Some (fst (interp secs)) else None,
+   if existsb is_strsec secs then Some (snd (interp secs)) else None).
 
 (* ---------- reference parser of the grammar (consumes a suffix; no indices) ---------- *)
 Definition take_str (b : bytes) : option (bytes * bytes) :=
@@ -191,9 +205,21 @@ Definition parse_secs (b : bytes) : option (list sec) := parse_secs_fuel (S (len
 Definition field_at (b : bytes) (off n : nat) : N := unbe (seg b off n).
 Definition declared (b : bytes) : N := if len b <? L_meta then 0 else 4 * field_at b 12 2.
 
+(* the header info a frame carries: [declared b] bytes after the 14-byte meta block *)
+Definition info_of (b : bytes) : bytes := take (declared b) (drop L_meta b).
+
+(* the frames a decoder must accept, and no others: long enough for what they declare, magic,
+   declared size within 2..65536, supported protocol id, transform ids within the info, and
+   the rest of the info a sequence of complete sections (padding may interleave) *)
+Definition accepts (b : bytes) : Prop :=
+  L_meta + declared b <= len b /\ field_at b 4 2 = L_magic16 /\ 2 <= declared b <= L_max /\
+  exists pid nt rest secs,
+    info_of b = pid :: nt :: rest /\ In pid L_pids /\ nt <= declared b - 2 /\
+    secs_ok secs /\ drop nt rest = enc_secs secs.
+
 Record dspec := {
   s_flags : N; s_seq : Z; s_pid : N;
-  s_int : list (N * bytes); s_str : list (bytes * bytes);
+  s_int : option (list (N * bytes)); s_str : option (list (bytes * bytes));
   s_hlen : Z; s_plen : Z
 }.
 
@@ -215,7 +241,7 @@ Definition spec_decode (b : bytes) : option dspec :=
             Some {| s_flags := field_at b 6 2;
                     s_seq := to_signed 32 (field_at b 8 4);
                     s_pid := pid;
-                    s_int := fst (interp secs); s_str := snd (interp secs);
+                    s_int := fst (ointerp secs); s_str := snd (ointerp secs);
                     s_hlen := Z.of_N (L_meta + d);
                     s_plen := (Z.of_N (field_at b 0 4) + 4 - Z.of_N (L_meta + d))%Z |}
           | None => None
@@ -241,7 +267,7 @@ Definition frame (flags : N) (seq : Z) (pid : N) (im : list (N * bytes)) (sm : l
     let info := [pid; 0] ++ enc_secs secs ++ repeat 0 pad in
     b = be 4 tl ++ be 2 L_magic16 ++ be 2 flags ++ be 4 (to_unsigned 32 seq)
         ++ be 2 (len info / 4) ++ info
-    /\ body_secs im sm secs /\ (pad < 4)%nat /\ len info mod 4 = 0 /\ len info <= L_max.
+    /\ body_secs im sm secs /\ secs_ok secs /\ (pad < 4)%nat /\ len info mod 4 = 0 /\ len info <= L_max.
 
 (* executable counterpart, judged on the bytes alone plus the parameters *)
 Fixpoint strip_pads (rsecs : list sec) : nat * list sec :=
